@@ -96,7 +96,7 @@ CHECKS = {
 }
 
 def main():
-    heads = subprocess.run("git -C /repo log --format=%h%x09%s -n 40", shell=True, capture_output=True, text=True).stdout.splitlines()
+    heads = subprocess.run("git -C /repo log --format=%h%x09%s -n 1000", shell=True, capture_output=True, text=True).stdout.splitlines()
     hook_commits = [l.split("\t")[0] for l in heads if "verification hooks" in l]
     checks, na = [], []
     for pid in sorted(CHECKS):
